@@ -142,7 +142,32 @@ def run_unit(A, unit, rep, tier):
                 rep.fail("C16.d", norm_key("C16.d", eps[m].qualname), f"{eps[m].qualname} no longer removes the element with the built-in operation", [], g.label)
 
 
+def check_to_base(A, rep):
+    """(f) _to_base stores an element raw only if it is NOT a synced collection (by a classifier that
+    recognises both synced dicts and synced lists), and converts it recursively otherwise."""
+    import ast
+    from ..classify import find_resolvers, tag_of
+    rs = find_resolvers(A.model)
+    seen = {}
+    for cls in A.concrete():
+        owner, v = A.model.lookup(cls, "_to_base")
+        seen.setdefault(v.func, cls)
+    for func, cls in seen.items():
+        rep.context(f"{func.qualname} classifier", True)
+        used = [r for r in rs if r.name in ast.unparse(func.node)]
+        lits = [n.comparators[0].value for n in ast.walk(func.node) if isinstance(n, ast.Compare) and isinstance(n.comparators[0], ast.Constant) and isinstance(n.comparators[0].value, str)]
+        ok = False
+        if len(used) == 1 and lits:
+            ok = all(tag_of(A.model, used[0], t)[0] == lits[0] for t in ("SyncedDict subclass", "SyncedList subclass")) and \
+                 all(tag_of(A.model, used[0], t)[0] != lits[0] for t in ("str", "int", "float", "bool", "NoneType"))
+        if ok:
+            rep.ok("C16.f", f"C16.f {func.qualname}: nested synced dicts and lists are both recognised (and converted), scalars are not")
+        else:
+            rep.fail("C16.f", norm_key("C16.f", func.qualname), f"{func.qualname} does not recognise every kind of nested synced collection with its classifier ({[r.name for r in used]} == {lits[:1]}): some nested nodes are handed out live inside the 'plain' result", [func.loc], cls.name)
+
+
 def check_convert(A, rep):
+    check_to_base(A, rep)
     seen = {}
     for cls in A.concrete():
         owner, v = A.model.lookup(cls, "_from_base")
